@@ -1415,7 +1415,7 @@ def nl_description(nl):
 
 def format_eq_hyp(ck, nl, cases):
     """tie of section `FormatEquiv` of Props/C11Library.lean for one netlist of the `format-equivalence` stream: the hypotheses
-    `commonNlB` (and `benchOKB` / `verilogOKB` of the two canonical renderings) evaluated by the driver (tags `format-eq-hyp:*`); inside
+    `commonNlB`, `closedNlB` (and `benchOKB` / `verilogOKB` of the two canonical renderings) evaluated by the driver (tags `format-eq-hyp:*`); inside
     them the captured values of the model of `benchOf nl` (= those of `verilogOf nl`: `?` marks a difference) on sampled assignments
     == the generator's own evaluation of the netlist"""
     import random
@@ -1450,8 +1450,8 @@ def format_eq_hyp(ck, nl, cases):
     inp = {'nl': nl, 'request': f'nlequiv 0{int(fix)}{int(one)} {ptok} {gtok}'}
     try:
         ans = common.run_driver([f"nlequiv 0{int(fix)}{int(one)} {ptok} {gtok} {'/'.join(reqs) or '~'}"])[0].split(' ')
-        flags = dict(x.split('=') for x in ans[:4])
-        common_, bok, vok = flags['common'] == '1', flags['benchok'] == '1', flags['vok'] == '1'
+        flags = dict(x.split('=') for x in ans[:5])
+        common_, closed, bok, vok = flags['common'] == '1', flags['closed'] == '1', flags['benchok'] == '1', flags['vok'] == '1'
     except Exception as ex:
         ck.broken_tie('format_eq: driver', f'{type(ex).__name__}: {ex}'[:300], inp=inp); return
     ck.hist[f'format-eq-hyp:commonNlB={int(common_)}'] += 1
@@ -1460,12 +1460,15 @@ def format_eq_hyp(ck, nl, cases):
     if common_ == (wide or const):
         ck.broken_tie('format_eq: fragment', f'commonNlB={common_} but the generator put wide gate: {wide}, constant operand: {const}', inp=inp); return
     if not common_: return
+    ck.hist[f'format-eq-hyp:closedNlB={int(closed)}'] += 1
     ck.hist[f'format-eq-hyp:benchOKB={int(bok)},verilogOKB={int(vok)}'] += 1
+    if not closed:      # every generated operand is driven and no generated name looks like a constant bit
+        ck.broken_tie('format_eq: fragment', f'closedNlB is false for a generated netlist: {" ".join(ans[:5])}', inp=inp); return
     if not (bok and vok):
-        ck.broken_tie('format_eq: renderings', f'a canonical rendering of a netlist inside commonNlB does not build: {" ".join(ans[:4])}', inp=inp); return
+        ck.broken_tie('format_eq: renderings', f'a canonical rendering of a netlist inside closedNlB does not build: {" ".join(ans[:5])}', inp=inp); return
     if int(flags['npos']) != npos:
         ck.broken_tie('format_eq: positions', f"model nPos {flags['npos']} != {npos}", inp=inp); return
-    got = ans[4].split('/') if len(ans) == 5 and ans[4] != '~' else []
+    got = ans[5].split('/') if len(ans) == 6 and ans[5] != '~' else []
     if len(got) != sub.shape[1]:
         ck.broken_tie('format_eq: driver answer', ' '.join(ans)[:200], inp=inp); return
     exp = truth_table(nl, sub)
